@@ -35,14 +35,39 @@ func keyClass(t string) string {
 	return safeType(t)
 }
 
+var fixedLayout = map[string]bool{"VisualSampleEntry": true, "AudioSampleEntry": true, "mvhd": true, "tkhd": true, "mdhd": true, "hdlr": true,
+	"mehd": true, "tfdt": true, "mfhd": true, "trex": true, "tenc": true, "smhd": true, "vmhd": true, "btrt": true, "pasp": true, "clap": true,
+	"colr": true, "prft": true, "sidx": true, "tfra": true, "SmDm": true, "CoLL": true, "vpcC": true, "av1C": true, "dac3": true, "mfro": true,
+	"cslg": true, "hvcC": true, "avcC": true}
+
+var noVersion = map[string]bool{"VisualSampleEntry": true, "AudioSampleEntry": true, "btrt": true, "pasp": true, "clap": true, "colr": true,
+	"av1C": true, "dac3": true, "hvcC": true, "avcC": true}
+
 func (l lost) key() string {
 	switch l.Kind {
 	case "bits":
+		// the payload offset identifies the field only where the layout is
+		// fixed; behind variable-length elements (strings, loops, descriptors)
+		// it varies per input and is bucketed
 		off := fmt.Sprint(l.Off)
+		if l.Off >= 8 && !fixedLayout[keyClass(l.Type)] {
+			off = "8.."
+		}
 		if l.Off >= 256 {
 			off = "256+"
 		}
+		// the version byte is part of the key only where it selects a fixed
+		// layout (FullBoxes of the fixed-layout set); sample entries and
+		// configuration records have no version byte, and behind a
+		// variable-length element the offset bucket says nothing version-specific
+		cls := keyClass(l.Type)
+		if noVersion[cls] || !fixedLayout[cls] {
+			return fmt.Sprintf("lost-bits/%s/+%s", cls, off)
+		}
 		ver := fmt.Sprint(l.Ver)
+		if l.Ver > 3 {
+			ver = "4+" // not a version any syntax defines (mutated input)
+		}
 		if l.Off == 0 {
 			ver = "*" // the differing byte is the version byte itself
 		}
